@@ -14,6 +14,7 @@ import Driver.Settle
 import Driver.Conn
 import Driver.Life
 import Driver.Limits
+import Driver.FailProp
 
 structure DState where
   sess : Amqp.Session.St := Amqp.Session.init 0 0 0
@@ -72,6 +73,7 @@ def handle (st : DState) (line : String) : DState × String :=
     | some (s, out) => ({ st with slife := s }, out)
     | none => (st, "bad-op")
   | "L" :: ws => (st, (Driver.Life.linkCall ws).getD "bad-op")
+  | "P" :: ws => (st, (Driver.FailProp.step ws).getD "bad-op")
   | "N" :: ws =>
     match Driver.Limits.step st.limits ws with
     | some (s, out) => ({ st with limits := s }, out)
